@@ -76,6 +76,21 @@ def run(ctx):
             continue
         if got != expected(op, args):
             viol.append({"op": op, "args": repr(args), "written_hex": written.hex(), "what": "wire carries %r, caller asked for %r" % (got, expected(op, args))})
+    # text that has no UTF-8 encoding (lone surrogates, as `surrogateescape` / `surrogatepass` decoding produces them): RFC 5804
+    # strings are UTF-8, so nothing well-formed can be sent — the call must fail before anything is written
+    for bad in ["\udcff", "keep;\udc80\r\n", "\ud800", "a\udfffb", "\udce9t\udce9"]:
+        for op, args in [("putscript", ("n", bad)), ("checkscript", (bad,)), ("putscript", (bad, "keep;")), ("getscript", (bad,)),
+                         ("deletescript", (bad,)), ("setactive", (bad,)), ("renamescript", (bad, "x")), ("renamescript", ("x", bad)), ("havespace", (bad, 1))]:
+            s = msref.Session()
+            s.connect(ms_cases.GREETING + ms_cases.AUTH_OK, [], "user", "pw")
+            nw = len(s.wire.writes)
+            out = s.op(op, *args, stream=b"OK\r\n", sched=[])
+            evals += 1
+            nontriv += 1
+            written = b"".join(b for t, b in s.wire.writes[nw:])
+            if written or out.split(" ")[0] in ("res=b1", "res=b0", "res=none") or out.startswith("res=s:"):
+                viol.append({"op": op, "args": ascii(args), "written_hex": written.hex(),
+                             "what": "an argument that cannot be encoded as UTF-8 was not refused: %s, %d bytes written %r" % (out.split(" ")[0], len(written), written[:60])})
     # the Lean strict decoder (the one the theorem is about) and the Python strict decoder (the oracle) must agree
     dec_inputs = list(all_written)
     for _ in range(300):
